@@ -259,12 +259,17 @@ def run(prog, rep, tier='quick'):
     for fname, want_idx in (('poly2ac', 0), ('poly2rc', 2)):
         f = prog.func('linear_prediction', fname)
         n_w += 1
-        ret = [n for n in ast.walk(f.node) if isinstance(n, ast.Return)]
-        ok = len(ret) == 1 and isinstance(ret[0].value, ast.Subscript) and isinstance(ret[0].value.slice, ast.Constant) \
-            and ret[0].value.slice.value == want_idx
-        calls = [n for n in ast.walk(f.node) if isinstance(n, ast.Call) and getattr(n.func, 'id', '') == 'rlevinson']
+        # value flow (not syntax): the arguments reach rlevinson unchanged, the result is its component want_idx
         params = [a.arg for a in f.node.args.args]
-        ok = ok and len(calls) == 1 and [getattr(a, 'id', None) for a in calls[0].args] == params
+        itp = C.new_interp(prog)
+        itp.watch['levinson.rlevinson'] = []
+        pa = Num(zero_deg(), (L.a + 1,), True, taint=frozenset(['a']))
+        pe = C.deg0(label='efinal')
+        v, itp = C.run_function(prog, 'linear_prediction', fname, [pa, pe], {}, itp=itp)
+        cw_ = itp.watch['levinson.rlevinson']
+        ok = len(cw_) == 1 and getattr(cw_[0]['params'].get('a'), 'uid', 1) == pa.uid \
+            and getattr(cw_[0]['params'].get('efinal'), 'uid', 1) == pe.uid and isinstance(cw_[0]['ret'], Tup) \
+            and getattr(v, 'uid', 1) == getattr(cw_[0]['ret'].items[want_idx], 'uid', 2)
         if ok:
             rep.proved('wiring', f.qname, 'rlevinson(%s)[%d]' % (', '.join(params), want_idx), '', loc(f.mod, f.node))
         else:
@@ -285,7 +290,31 @@ def run(prog, rep, tier='quick'):
         return f, out
     f1, a1 = factors('lsf2poly', 'convolve')
     f2, a2 = factors('poly2lsf', 'deconvolve')
+
+    def used_factors(fname, kind, odd):
+        """multiset of the constant polynomial factors the function applies for one parity of the order (value flow: the
+        function is run abstractly with a vector whose length has that parity)"""
+        Aff.SYM_MIN['j'] = 2
+        ln = Aff(1 if odd else 0, {'j': F(2)}) + (1 if fname == 'poly2lsf' else 0)
+        v_, itp_ = C.run_function(prog, 'linear_prediction', fname, [Num(zero_deg(), (ln,), False, taint=frozenset(['arg']))], {})
+        return sorted(e[3] for e in itp_.events if e[0] == kind and e[4] == 'linear_prediction.' + fname and e[3] is not None)
     n_l = 0
+    if not a1 or not a2 or set(a1) != set(a2):
+        # the factors are not written as literal arguments inside an `if p % 2` (or only on one side): compare the factors
+        # each direction really applies, per parity
+        a1, a2 = {}, {}
+        for odd in (True, False):
+            m1, m2 = used_factors('lsf2poly', 'convolve', odd), used_factors('poly2lsf', 'deconvolve', odd)
+            par = 'odd' if odd else 'even'
+            n_l += 1
+            if m1 and m1 == m2:
+                rep.proved('lsf-siblings', f1.qname, '%s order, factors' % par, 'the same known-root factors %s in both directions' % (m1,), loc(f1.mod, f1.node))
+            elif not m1 or not m2:
+                rep.undecided('lsf-siblings', f1.qname, '%s order, factors' % par, 'known-root factors not derivable (lsf2poly %s, poly2lsf %s)' % (m1, m2), loc(f1.mod, f1.node))
+            else:
+                rep.violation('lsf-siblings', f1.qname, '%s order, factors' % par, 'lsf2poly multiplies by %s but poly2lsf divides by %s: the '
+                              'two conversions are not inverse for this parity' % (m1, m2), loc(f1.mod, f1.node))
+        n_l += 2
     for key in sorted(set(a1) | set(a2)):
         n_l += 1
         if a1.get(key) == a2.get(key):
